@@ -4,4 +4,4 @@ Extraction Language OCaml.
 Set Extraction KeepSingleton.
 Extraction "model_tok.ml" errno
   Z.add Z.sub Z.mul Z.div Z.modulo Z.abs Z.opp Z.leb Z.ltb Z.eqb Z.of_nat Z.to_nat Z.of_N Z.to_N
-  tok_new tok_reset set_flags parse_ex parse_ex_cstr depth size_guard_n from_fd_parse.
+  tok_new tok_reset set_flags parse_ex parse_ex_cstr depth size_guard_n from_fd_parse default_depth flags_of_word.
